@@ -198,4 +198,258 @@ theorem index_single_int (d : Nat) (s : Shape) (i : Int) (h : intInRange d i = t
 theorem intInRange_ofNat (d i : Nat) (h : i < d) : intInRange d (Int.ofNat i) = true := by
   simp [intInRange]; omega
 
+/-! ### full integer indexing -/
+
+/-- every integer is a valid index for the corresponding leading dimension -/
+def intsInRange : List Int → Shape → Bool
+  | [], _ => true
+  | i :: is, d :: s => intInRange d i && intsInRange is s
+  | _ :: _, [] => false
+
+theorem intsInRange_length (is : List Int) (s : Shape) (h : intsInRange is s = true) :
+    is.length ≤ s.length := by
+  induction is generalizing s with
+  | nil => simp
+  | cons i is ih =>
+    cases s with
+    | nil => simp [intsInRange] at h
+    | cons d s => simp [intsInRange] at h; simp; exact ih s h.2
+
+theorem walk_ints (is : List Int) (s : Shape) (acc : IxAcc) (h : intsInRange is s = true) :
+    walk false 0 (is.map Ix.int) s acc = .ok (acc.pushBasic (s.drop is.length)) := by
+  induction is generalizing s with
+  | nil => simp [walk]
+  | cons i is ih =>
+    cases s with
+    | nil => simp [intsInRange] at h
+    | cons d s =>
+      simp [intsInRange] at h
+      simp [walk, h.1, ih s h.2]
+
+theorem ints_no_ellipsis (is : List Int) : ((is.map Ix.int).filter Ix.isEllipsis).length = 0 := by
+  induction is with
+  | nil => rfl
+  | cons i is ih => simpa [Ix.isEllipsis] using ih
+
+theorem ints_not_advanced (is : List Int) : (is.map Ix.int).any Ix.isAdvanced = false := by
+  induction is with
+  | nil => rfl
+  | cons i is ih => simpa [Ix.isAdvanced] using ih
+
+theorem ints_consumed (is : List Int) : consumedTotal (is.map Ix.int) = is.length := by
+  induction is with
+  | nil => rfl
+  | cons i is ih => simp [consumedTotal, Ix.consumed] at *; omega
+
+/-- `a[i₁, …, i_k]` with in-range integers drops the first `k` dimensions -/
+theorem index_ints (is : List Int) (s : Shape) (h : intsInRange is s = true) :
+    index s (is.map Ix.int) = .ok (s.drop is.length) := by
+  have hl := intsInRange_length is s h
+  simp only [index, ints_no_ellipsis, ints_consumed, ints_not_advanced]
+  have : ¬ is.length > s.length := by omega
+  simp [this, walk_ints is s {} h, IxAcc.pushBasic, IxAcc.result]
+
+/-! ### a lower bound on the rank of an indexing result -/
+
+/-- the least number of dimensions an index item contributes to the result -/
+def Ix.minRank : Ix → Nat
+  | .newaxis => 1
+  | .slice .. => 1
+  | .mask .. => 1
+  | .fancy sh _ _ => sh.length
+  | _ => 0
+
+def IxAcc.rank (a : IxAcc) : Nat := a.pre.length + a.post.length + (a.adv.getD []).length
+
+theorem IxAcc.result_length (a : IxAcc) : a.result.length = a.rank := by
+  unfold IxAcc.result IxAcc.rank
+  cases a.adv with
+  | none => simp
+  | some b => simp only [Option.getD]; split <;> simp <;> omega
+
+theorem IxAcc.pushBasic_rank (a : IxAcc) (dims : List Nat) :
+    (a.pushBasic dims).rank = a.rank + dims.length := by
+  unfold IxAcc.pushBasic IxAcc.rank
+  split
+  · simp; omega
+  · split <;> (simp; omega)
+
+theorem bcastRev_length (a b r : List Nat) (h : bcastRev a b = some r) :
+    a.length ≤ r.length ∧ b.length ≤ r.length := by
+  induction a generalizing b r with
+  | nil => cases b <;> simp [bcastRev] at h <;> subst h <;> simp
+  | cons x a ih =>
+    cases b with
+    | nil => simp [bcastRev] at h; subst h; simp
+    | cons y b =>
+      simp only [bcastRev] at h
+      cases hr : bcastRev a b with
+      | none => simp [hr] at h
+      | some r' =>
+        have := ih b r' hr
+        simp only [hr] at h
+        repeat' split at h
+        all_goals first | (cases h; simp; omega) | cases h
+
+theorem broadcast_length (a b r : Shape) (h : broadcast a b = some r) :
+    a.length ≤ r.length ∧ b.length ≤ r.length := by
+  simp only [broadcast, Option.map_eq_some_iff] at h
+  obtain ⟨r', hr, rfl⟩ := h
+  have := bcastRev_length _ _ _ hr
+  simpa using this
+
+theorem IxAcc.pushAdv_rank (a a' : IxAcc) (sh : Shape) (h : a.pushAdv sh = .ok a') :
+    a.rank ≤ a'.rank ∧ sh.length ≤ a'.rank := by
+  unfold IxAcc.pushAdv at h
+  cases ha : a.adv with
+  | none =>
+    simp only [ha] at h; cases h
+    simp [IxAcc.rank, ha]
+  | some b =>
+    simp only [ha] at h
+    cases hb : broadcast b sh with
+    | none => simp [hb] at h
+    | some r =>
+      simp only [hb] at h; cases h
+      have := broadcast_length b sh r hb
+      simp [IxAcc.rank, ha]; omega
+
+/-- the walk never lowers the rank, and every item forces at least its `minRank` -/
+theorem walk_rank (hasAdv : Bool) (ell : Nat) (ixs : List Ix) (rest : Shape) (acc acc' : IxAcc)
+    (h : walk hasAdv ell ixs rest acc = .ok acc') :
+    acc.rank ≤ acc'.rank ∧ ∀ ix ∈ ixs, ix.minRank ≤ acc'.rank := by
+  induction ixs generalizing rest acc with
+  | nil =>
+    simp only [walk] at h; cases h
+    exact ⟨by rw [IxAcc.pushBasic_rank]; omega, by simp⟩
+  | cons ix ixs ih =>
+    cases ix with
+    | newaxis =>
+      simp only [walk] at h
+      have := ih _ _ h
+      rw [IxAcc.pushBasic_rank] at this
+      refine ⟨by simp at this; omega, ?_⟩
+      intro j hj
+      rcases List.mem_cons.1 hj with rfl | hj
+      · simp [Ix.minRank] at *; omega
+      · exact this.2 j hj
+    | ellipsis =>
+      simp only [walk] at h
+      have := ih _ _ h
+      rw [IxAcc.pushBasic_rank] at this
+      refine ⟨by omega, ?_⟩
+      intro j hj
+      rcases List.mem_cons.1 hj with rfl | hj
+      · simp [Ix.minRank]
+      · exact this.2 j hj
+    | mask ms nt =>
+      simp only [walk] at h
+      split at h
+      · cases hp : acc.pushAdv [0] with
+        | error e => simp [hp] at h
+        | ok a1 =>
+          simp only [hp] at h
+          have h1 := IxAcc.pushAdv_rank _ _ _ hp
+          have := ih _ _ h
+          refine ⟨by omega, ?_⟩
+          intro j hj
+          rcases List.mem_cons.1 hj with rfl | hj
+          · simp [Ix.minRank] at *; omega
+          · exact this.2 j hj
+      · split at h
+        · cases hp : acc.pushAdv [nt] with
+          | error e => simp [hp] at h
+          | ok a1 =>
+            simp only [hp] at h
+            have h1 := IxAcc.pushAdv_rank _ _ _ hp
+            have := ih _ _ h
+            refine ⟨by omega, ?_⟩
+            intro j hj
+            rcases List.mem_cons.1 hj with rfl | hj
+            · simp [Ix.minRank] at *; omega
+            · exact this.2 j hj
+        · cases h
+    | int i =>
+      cases rest with
+      | nil => simp [walk] at h
+      | cons d rest =>
+        simp only [walk] at h
+        split at h
+        · split at h
+          · cases hp : acc.pushAdv [] with
+            | error e => simp [hp] at h
+            | ok a1 =>
+              simp only [hp] at h
+              have h1 := IxAcc.pushAdv_rank _ _ _ hp
+              have := ih _ _ h
+              refine ⟨by omega, ?_⟩
+              intro j hj
+              rcases List.mem_cons.1 hj with rfl | hj
+              · simp [Ix.minRank]
+              · exact this.2 j hj
+          · have := ih _ _ h
+            refine ⟨this.1, ?_⟩
+            intro j hj
+            rcases List.mem_cons.1 hj with rfl | hj
+            · simp [Ix.minRank]
+            · exact this.2 j hj
+        · cases h
+    | slice a b st =>
+      cases rest with
+      | nil => simp [walk] at h
+      | cons d rest =>
+        simp only [walk] at h
+        split at h
+        · cases h
+        · have := ih _ _ h
+          rw [IxAcc.pushBasic_rank] at this
+          refine ⟨by simp at this; omega, ?_⟩
+          intro j hj
+          rcases List.mem_cons.1 hj with rfl | hj
+          · simp [Ix.minRank] at *; omega
+          · exact this.2 j hj
+    | fancy sh lo hi =>
+      cases rest with
+      | nil => simp [walk] at h
+      | cons d rest =>
+        simp only [walk] at h
+        split at h
+        · cases h
+        · cases hp : acc.pushAdv sh with
+          | error e => simp [hp] at h
+          | ok a1 =>
+            simp only [hp] at h
+            have h1 := IxAcc.pushAdv_rank _ _ _ hp
+            have := ih _ _ h
+            have hr : ({ a1 with oob := a1.oob || !(decide (size sh = 0) || (intInRange d lo && intInRange d hi)) } : IxAcc).rank = a1.rank := rfl
+            rw [hr] at this
+            refine ⟨by omega, ?_⟩
+            intro j hj
+            rcases List.mem_cons.1 hj with rfl | hj
+            · simp [Ix.minRank] at *; omega
+            · exact this.2 j hj
+
+/-- a 0-d indexing result needs every item to be an integer, an Ellipsis or a 0-d integer array:
+    no slice, no newaxis, no boolean mask, no integer array with dimensions -/
+theorem index_scalar_items (s : Shape) (ixs : List Ix) (h : index s ixs = .ok []) :
+    ∀ ix ∈ ixs, ix.minRank = 0 := by
+  unfold index at h
+  simp only at h
+  split at h
+  · cases h
+  · split at h
+    · cases h
+    · split at h
+      · cases h
+      · rename_i acc hw
+        split at h
+        · cases h
+        · have hres : acc.result = [] := by injection h
+          have hr := walk_rank _ _ _ _ _ _ hw
+          have hl := IxAcc.result_length acc
+          intro ix hix
+          have := hr.2 ix hix
+          have h0 : acc.result.length = 0 := by simp [hres]
+          omega
+
 end Unyt.Shape
